@@ -72,7 +72,7 @@ type thread struct {
 	starveEpoch uint64
 	starveCount int
 	panicked    any
-	stack    string
+	stack       string
 }
 
 type loadRec struct {
